@@ -1,0 +1,25 @@
+// Package verifhook holds instrumentation points used by the external runtime
+// verification harness. With the "verif" build tag off (the default) every
+// function in this package is an empty, inlinable stub.
+package verifhook
+
+// Instrumentation sites. The numbering is part of the harness interface.
+const (
+	SiteLexRead = iota
+	SiteParsePeek
+	SiteParseNext
+	SiteWalkSelection
+	SiteWalkValue
+	SiteWalkDirectives
+	SiteOverlapFindConflict
+	SiteOverlapFieldsAndFragment
+	SiteOverlapFragments
+	SiteFragmentCycles
+	SiteIntrospectionDepth
+	SiteSubscriptionTopFields
+	SiteVarType
+	SiteSchemaDefinition
+	SiteSchemaCovariant
+	SiteOverlapCollect
+	NSites
+)
